@@ -65,6 +65,9 @@ func snapshotPhase1(res *scn.Result) {
 			res.SitesSwitch = append(res.SitesSwitch, i)
 		}
 	}
+	if zzsim.LeftBehind > 0 {
+		res.Probes["goroutines_of_the_code_under_test_left_waiting_at_the_end"] = zzsim.LeftBehind
+	}
 	if zzsim.Rendezvous > 0 {
 		res.Probes["unbuffered_channel_rendezvous"] = zzsim.Rendezvous
 	}
